@@ -1,18 +1,8 @@
 package sim
 
 import (
-	"crypto/sha256"
-	"encoding/hex"
-
 	abci "github.com/cometbft/cometbft/abci/types"
 )
 
 // DigestResponse is a SHA-256 over the deterministic protobuf serialisation of a FinalizeBlock response.
-func DigestResponse(res *abci.ResponseFinalizeBlock) string {
-	bz, err := res.Marshal()
-	if err != nil {
-		panic(err)
-	}
-	h := sha256.Sum256(bz)
-	return hex.EncodeToString(h[:])
-}
+func DigestResponse(res *abci.ResponseFinalizeBlock) string { return sha(mustMarshal(res)) }
